@@ -359,6 +359,7 @@ def judge(events, timeout=3400):
 CORE = ['GLY', 'ALA', 'SER', 'CYS', 'VAL', 'THR', 'ASP', 'ASN', 'GLU', 'GLN', 'LEU', 'ILE', 'MET', 'PRO', 'PHE', 'TYR', 'HIS', 'HSE',
         'LYS', 'ARG', 'TRP', 'BENZ', 'ACET', 'MEOH', 'ETHA', 'UREA', 'GUAN', 'NC2', 'CO3', 'NH4']
 CORE_H = ['GLY', 'ALA', 'SER', 'VAL', 'ASP', 'BENZ', 'ACET', 'MEOH', 'ETHA', 'GUAN', 'NH4', 'CO3', 'UREA']     # with hydrogens, quick tier
+KNOWN_BAD = ('CPEN',)     # cyclopentane with hydrogens: known finding C06-ring5-two-leaves; always in the thorough tier, never in the quick one
 TWINS = [('VAL', 'THR'), ('ASP', 'ASN'), ('GLU', 'GLN'), ('CYS', 'SER'), ('LEU', 'ASP'), ('PHE', 'TYR')]
 
 
@@ -366,7 +367,7 @@ def _case(fam, what, ref, res, eq, cache=False):
     return {'fam': fam, 'what': what, 'ref': ref, 'res': res, 'eq': eq, 'cache': cache}
 
 
-def block_cases(ff, name, gd, hv, others, rng, eqs=('element', 'name')):
+def block_cases(ff, name, gd, hv, others, rng, eqs=('element', 'name'), maxattach=17):
     """the families of one block: itself, atoms removed, a neighbour's atoms attached (both directions), another block"""
     tag = '%s/%s/%s' % (ff, name, hv)
     n = len(gd['nodes'])
@@ -380,7 +381,8 @@ def block_cases(ff, name, gd, hv, others, rng, eqs=('element', 'name')):
             oname, ogd = rng.choice(others)
             k = rng.randint(1, 3)
             big = attach(gd, ogd, rng, k)
-            yield _case('real:attached:' + eq, '%s +%d of %s' % (tag, k, oname), gd, big, eq)
+            if n <= maxattach or eq == 'name':      # shrinking a pattern of 20+ atoms with hydrogens (element equality) takes the matcher minutes
+                yield _case('real:attached:' + eq, '%s +%d of %s' % (tag, k, oname), gd, big, eq)
             yield _case('real:inside:' + eq, '%s in itself +%d of %s' % (tag, k, oname), big, gd, eq)
     if others:
         near = sorted(others, key=lambda o: (abs(len(o[1]['nodes']) - n), o[0]))[:4]
@@ -406,13 +408,13 @@ def real_cases(tier, seed):
     if tier == 'quick':
         chosen = [('charmm', n, 'noH') for n in CORE] + [('charmm', n, 'H') for n in CORE_H] + \
                  [('amber', n, 'noH') for n in ('ARG', 'TRP', 'HIP', 'LYS')] + [('gromos', n, 'H') for n in ('ARG', 'PHE', 'TYR', 'LYSH')]
-        pool = sorted(k for k in variants if len(variants[k]['nodes']) <= 16)
-        chosen_seeded = rng.sample(pool, 14)
+        pool = sorted(k for k in variants if len(variants[k]['nodes']) <= 16 and k[1] not in KNOWN_BAD)
+        chosen_seeded = rng.sample(pool, 10)
     else:
         # every amber / gromos block, the charmm core, and a seeded half of the other charmm blocks
-        chosen = sorted(k for k in variants if k[0] != 'charmm' or k[1] in CORE)
-        rest = sorted(k for k in variants if k[0] == 'charmm' and k[1] not in CORE)
-        chosen_seeded = rng.sample(rest, len(rest) // 2)
+        chosen = sorted(k for k in variants if k[0] != 'charmm' or k[1] in CORE or k[1] in KNOWN_BAD)
+        rest = sorted(k for k in variants if k[0] == 'charmm' and k[1] not in CORE and k[1] not in KNOWN_BAD)
+        chosen_seeded = rng.sample(rest, len(rest) // 6)
     seen = set()
     for which, r in ((chosen, fixed), (chosen_seeded, rng)):
         for key in which:
@@ -421,8 +423,12 @@ def real_cases(tier, seed):
             seen.add(key)
             ff, name, hv = key
             others = [o for o in (by_ff_h if hv == 'H' else by_ff)[ff] if o[0] != name]
-            eqs = ('element', 'name') if (tier != 'quick' or hv == 'noH') else ('element',)
-            cases.extend(block_cases(ff, name, variants[key], hv, others, r, eqs))
+            eqs = ('element', 'name') if (tier != 'quick' or (hv == 'noH' and name in CORE[::2])) else ('element',)
+            cases.extend(block_cases(ff, name, variants[key], hv, others, r, eqs, 12 if tier == 'quick' else 17))
+    if tier == 'quick':
+        for name in KNOWN_BAD:       # one instance of the known finding in every run (the KNOWN-FINDING line is printed; anything else stays a violation)
+            if ('charmm', name, 'H') in variants:
+                cases.append(_case('real:self:element', 'charmm/%s/H' % name, variants['charmm', name, 'H'], variants['charmm', name, 'H'], 'element'))
     # --- histories: one cache over the residues of a chain -------------------------------------------------------------------
     ch = {n: variants['charmm', n, 'noH'] for n in L['charmm'] if ('charmm', n, 'noH') in variants}
     chH = L['charmm']
@@ -488,8 +494,40 @@ def merge(a, b):
     del a['samples_real'][2:]
 
 
-def scenario_of(e):
-    return {k: e[k] for k in ('G', 'H', 'mode', 'sym', 'Y', 'E', 'A', 'chk', 'fam', 'what', 'eq') if k in e}
+def scenario_of(e, verdict=''):
+    return dict({k: e[k] for k in ('G', 'H', 'mode', 'sym', 'Y', 'E', 'A', 'chk', 'fam', 'what', 'eq') if k in e}, verdict=verdict)
+
+
+def ring5_two_leaves(H):
+    """does the pattern contain a 5-ring whose five atoms each carry exactly two degree-1 neighbours (cyclopentane C5H10)?"""
+    adj = {n: set() for n, _ in H['nodes']}
+    for a, b, _ in H['edges']:
+        adj[a].add(b)
+        adj[b].add(a)
+    leaf = {n for n in adj if len(adj[n]) == 1}
+    core = {n for n in adj if len(adj[n] & leaf) == 2 and len(adj[n] - leaf) == 2}
+    for n in core:
+        ring, prev, cur = [n], None, n
+        while True:
+            nxt = [x for x in adj[cur] - leaf if x in core and x != prev]
+            if not nxt:
+                break
+            prev, cur = cur, nxt[0]
+            if cur == n:
+                if len(ring) == 5:
+                    return True
+                break
+            if cur in ring or len(ring) > 5:
+                break
+            ring.append(cur)
+    return False
+
+
+SIGNATURES = {
+    # ISMAGS finds no ring rotation for cyclopentane-like patterns (coset of the first ring atom is itself only): several
+    # representatives of one class with symmetry on
+    'C06-ring5-two-leaves': lambda kind, sc: sc.get('verdict') == 'two-representatives-of-one-class' and sc.get('sym') and ring5_two_leaves(sc['H']),
+}
 
 
 def judge_into(events, sm):
@@ -520,7 +558,7 @@ def judge_into(events, sm):
         fam = e['fam'].split(':')[0] + ':' + e['fam'].split(':')[1]
         if v.startswith('certificate:') or v.startswith('judges-disagree') or v == 'no-verdict':
             if v.startswith('judges-disagree'):
-                sm['bad'].append((scenario_of(e), '%s symmetry=%s on %s (%s): %s' % (e['mode'], e['sym'], e['fam'], e['what'], v)))
+                sm['bad'].append((scenario_of(e, v), '%s symmetry=%s on %s (%s): %s' % (e['mode'], e['sym'], e['fam'], e['what'], v)))
             else:
                 sm['machinery'].append('%s %s: %s' % (e['fam'], e['what'], v))
             continue
@@ -541,7 +579,7 @@ def judge_into(events, sm):
             case = [e['G'], e['H'], e['mode'].split('-')[0], e['sym']]
             sm['nontrivial'].add(hashlib.sha1(json.dumps(case, sort_keys=True).encode()).hexdigest()[:16])
         if v != 'ok':
-            sm['bad'].append((scenario_of(e), '%s symmetry=%s on %s (%s): %s' % (e['mode'], e['sym'], e['fam'], e['what'], v)))
+            sm['bad'].append((scenario_of(e, v), '%s symmetry=%s on %s (%s): %s' % (e['mode'], e['sym'], e['fam'], e['what'], v)))
         elif len(sm.setdefault('samples_real', [])) < 1 and e.get('nA', 0) > 1 and len(e['Y']) >= 1 and len(e.get('E', [])) <= 12:
             sm['samples_real'].append({k: e[k] for k in ('fam', 'what', 'eq', 'G', 'H', 'mode', 'sym', 'Y', 'E', 'A')})
 
